@@ -25,10 +25,21 @@ fn fusable(r: &mut Rng) -> Vec<String> {
     let o1 = r.pick(opts);
     let o2 = r.pick(opts);
     let mut v = vec![];
+    // sometimes every rule of the list is of one modifier category (csp / redirect), so that
+    // same-bucket neighbours of the categories that must NOT be fused occur
+    let modcat = match r.below(8) { 0 => Some("csp=script-src 'none'"), 1 => Some("csp=img-src *"), 2 => Some("redirect=noop.js"), 3 => Some("removeparam"), _ => None };
+    let shared_pat = format!("/{}/{}^", r.pick(gen::VOCAB), r.pick(gen::VOCAB));
     for _ in 0..n {
         let o = if r.chance(2, 3) { o1 } else { o2 };
         let exc = if r.chance(1, 5) { "@@" } else { "" };
-        let pat = match r.below(8) {
+        let pat = match r.below(if modcat.is_some() { 14 } else { 11 }) {
+            // modifier lists: several rules on one pattern (same bucket, same mask, different argument)
+            11 | 12 | 13 => shared_pat.clone(),
+            // pattern-less rule: matches every URL, must survive fusion with patterned neighbours
+            8 => String::new(),
+            // token-less patterns share bucket 0 with the pattern-less rules
+            9 => format!("/{}", r.pick(&["a", "b", "x"])),
+            10 => format!("{}{}", r.pick(&["-", "_", "/", "."]), r.pick(&["a", "b", "x", "ad"])),
             0 => format!("{}*{}", r.pick(gen::VOCAB), r.pick(gen::VOCAB)),
             1 => format!("{}^{}", r.pick(gen::VOCAB), r.pick(gen::VOCAB)),
             2 => format!("|https://{}", r.pick(gen::HOSTS)),
@@ -38,7 +49,29 @@ fn fusable(r: &mut Rng) -> Vec<String> {
             _ => format!("/{}/{}", r.pick(gen::VOCAB), gen::segs(r, 1, 2)),
         };
         let o = if o == "$match-case" && !(pat.starts_with('/') && pat.ends_with('/')) { "" } else { o };
+        let o = if pat.is_empty() && o.is_empty() { "$image" } else { o };
+        let rp;
+        let modcat = if modcat == Some("removeparam") { rp = format!("removeparam={}", r.pick(gen::PARAMS)); Some(rp.as_str()) } else { modcat };
+        let o = match modcat {
+            Some(m) if r.chance(3, 4) => if o.is_empty() { format!("${}", m) } else { format!("{},{}", o, m) },
+            _ => o.to_string(),
+        };
         v.push(format!("{}{}{}", exc, pat, o));
+    }
+    // rules dispatched per source domain (no pattern token, several domains) are held by several
+    // buckets; together with single-bucket rules keyed by one of those domains they exercise the
+    // shared / owned split of NetworkFilterList::optimize
+    if r.chance(1, 3) {
+        let d1 = r.pick(gen::DOMAINS);
+        let d2 = r.pick(gen::DOMAINS);
+        let t = r.pick(&["script", "image", "font"]);
+        v.push(format!("${},domain={}|{}", t, d1, d2));
+        let k = r.range(1, 3);
+        for _ in 0..k {
+            let t2 = r.pick(&["script", "image", "font", "xhr"]);
+            let pat = if r.chance(1, 2) { String::new() } else { format!("/{}", r.pick(&["a", "b"])) };
+            v.push(format!("{}${},domain={}", pat, t2, if r.chance(2, 3) { d1 } else { d2 }));
+        }
     }
     if r.chance(1, 3) {
         v.push(gen::rule(r, true));
@@ -158,10 +191,30 @@ fn main() {
         );
         // ---- oracle
         let tagsets: [&[&str]; 3] = [&[], &["t1"], &["t1", "t2"]];
-        for tags in tagsets.iter() {
+        for (ti, tags) in tagsets.iter().enumerate() {
             let (off, on, live) = blockers(&lines, tags);
+            if ti == 1 {
+                // ---- Blocker::optimize / Blocker::new(optimize=true) on all eight lists vs blocker_optimize
+                let d0 = adblock::verif_hooks::dump_blocker(&off);
+                let m_coq = clist(&d0.lists, |(_, l)| clist(l, |(k, b)| format!("({}, {})", cn(*k), coq_rules(b))));
+                for (which, bl) in [("Blocker::optimize", &live), ("Blocker::new(enable_optimizations)", &on)] {
+                    let d1 = adblock::verif_hooks::dump_blocker(bl);
+                    let v_coq = clist(&d1.lists, |(_, l)| clist(l, |(k, b)| format!("({}, {})", cn(*k), clist(b, view))));
+                    cs.stat("blocker_optimize");
+                    cs.case(
+                        format!("blocker_views_eqb (blocker_optimize (mkb {})) {}", m_coq, v_coq),
+                        json!({"fn": which, "rules": lines, "tags": tags}),
+                        d1.lists.iter().zip(d0.lists.iter()).any(|(x, y)| x.1.iter().map(|b| b.1.len()).sum::<usize>() < y.1.iter().map(|b| b.1.len()).sum::<usize>()),
+                    );
+                }
+            }
             for _ in 0..3 {
-                let Some((url, src, ty, req)) = clean_request(&mut r, &lines) else { continue };
+                let Some((mut url, src, ty, mut req)) = clean_request(&mut r, &lines) else { continue };
+                if !url.contains('?') && !url.contains('#') && lines.iter().any(|l| l.contains("removeparam=")) {
+                    url = format!("{}?{}={}&{}={}", url, r.pick(gen::PARAMS), r.pick(gen::VOCAB), r.pick(gen::PARAMS), r.pick(gen::VOCAB));
+                    let Ok(q) = Request::new(&url, &src, ty) else { continue };
+                    req = q;
+                }
                 sm.oracle_evaluations += 1;
                 let (o0, o1, o2) = (observe(&off, &rs, &req), observe(&on, &rs, &req), observe(&live, &rs, &req));
                 if o0 != o1 || o0 != o2 {
